@@ -128,6 +128,30 @@ def hygiene_family():
     return out
 
 
+def multi_param_family():
+    """Un-called lambdas with several parameters of which exactly some re-use a live outer name that a pending definition
+    or a fused stage mentions: the rename test of visit_Lambda must fire when ANY parameter collides, not only when all do."""
+    out = []
+    for X in ("e", "t"):
+        for params, acc, x in (("acc, %s" % X, "acc", X), ("%s, acc" % X, X, "acc"), ("acc, %s, z=0" % X, "acc", X)):
+            if "z=0" in params:
+                continue        # lambdas with defaults are outside the modelled grammar
+            use = "%s + %s.pt" % (acc, x) if x == X else "%s.pt + %s" % (x, acc) if False else "%s + %s.pt" % (x, acc)
+            # X names the fold's element in one layout and the accumulator in the other
+            elem = x if x == X else acc
+            accn = acc if x == X else x
+            body = "%s + %s.pt" % (accn, elem)
+            O = "e" if X == "e" else "t"
+            out.append("Select(ds, lambda %s: (lambda n1: n1.jets.fold(0, lambda %s: %s + n1.met))(%s))" % (O, params, body, O))
+            out.append("Select(Select(ds, lambda e: (e, e.met)), lambda %s: %s[0].jets.fold(0, lambda %s: %s + %s[1]))" % (O, O, params, body, O))
+            out.append("Select(Select(ds, lambda e: {'j': e.jets, 'm': e.met}), lambda %s: %s.j.fold(0, lambda %s: %s + %s.m))" % (O, O, params, body, O))
+            out.append("Where(Select(ds, lambda e: (e, e.met)), lambda %s: %s[0].jets.fold(0, lambda %s: %s + %s[1]) > 0)" % (O, O, params, body, O))
+            out.append("SelectMany(Select(ds, lambda e: (e.jets, e)), lambda %s: Select(%s[0], lambda j: %s[1].trk.fold(j.pt, lambda %s: %s + %s[1].met)))"
+                       % (O, O, O, params, body, O))
+            out.append("Select(ds, lambda %s: (lambda n1, n2: n2.fold(n1, lambda %s: %s + n1))(%s.met, %s.jets))" % (O, params, body, O, O))
+    return out
+
+
 def check_case(ctx, q: ast.expr, model_ln: str, datasets, label: str, semantic: bool = True):
     """correspondence + oracle for one query; returns True if the implementation changed the tree"""
     impl_ln = sc.impl_line(q)
@@ -182,7 +206,7 @@ def run(ctx):
     # 1. corpus
     qs = [sc.parse(s) for s in CORPUS]
     labels = ["corpus"] * len(qs)
-    hf = [sc.parse(x) for x in hygiene_family()]
+    hf = [sc.parse(x) for x in hygiene_family() + multi_param_family()]
     qs += hf
     labels += ["hygiene"] * len(hf)
     # 2. enumeration (correspondence incl. malformed shapes; these are mostly not evaluable)
